@@ -194,6 +194,188 @@ open Jesse.Eng FrameLemmas
 
 variable {M : Type} [Inhabited M] (u : UserStrategy M)
 
+/-! ### every active order is listed in its symbol's registry (operation level, any history)
+
+`active_registry` describes one clean-up of the registry.  The converse direction — the registry never LOSES an order
+that is still active — is an invariant of every operation of the accounts model: a submission registers the new
+order, executions and cancellations leave the registries alone and only move statuses away from ACTIVE, and the
+clean-up drops only orders that are no longer active.  (It is the hypothesis "the registry lists every active order"
+of C02's composition theorem, here for every history of account operations.) -/
+
+/-- every ACTIVE order is in the registry of its symbol (and every order's symbol has a registry) -/
+def ActiveIn (w : World) : Prop :=
+  ∀ id, id < w.orders.length →
+    (w.orders.getD id default).sym < w.active.length ∧
+    ((w.orders.getD id default).status = .active → id ∈ getD w.active (w.orders.getD id default).sym)
+
+theorem activeIn_init (kind : Kind) (b f l : Rat) (n : Nat) : ActiveIn (init kind b f l n) := by
+  intro id hid; simp [init] at hid
+
+theorem execute_active (w : World) (id : Nat) : (execute w id).active = w.active := by
+  unfold execute
+  split
+  · rfl
+  · split
+    · rfl
+    · unfold onExecuted
+      rw [(FrameLemmas.same_onExecutedCore _ _).2, (FrameLemmas.same_chargeFee _ _).2,
+        (FrameLemmas.same_exchangeOnExecution _ _).2, (FrameLemmas.same_addExecutedOrder _ _).2]
+      rfl
+
+theorem cancel_active (w : World) (id : Nat) : (cancel w id).active = w.active := by
+  unfold cancel
+  split
+  · rfl
+  · split
+    · rfl
+    · dsimp only
+      split
+      · split
+        · rfl
+        · split <;> rfl
+      · split
+        · show (releaseSell _ _).active = _
+          rw [(FrameLemmas.same_releaseSell _ _).2]; rfl
+        · rw [(FrameLemmas.same_releaseSell _ _).2]; rfl
+
+/-- an operation that leaves the registries alone and is a frame for the orders (`WExt`: same symbols, no order
+    becomes active again, no new order) keeps the invariant -/
+theorem activeIn_of_ext (w w' : World) (h : ActiveIn w) (hext : FrameLemmas.WExt w w') (hlen : w'.orders.length = w.orders.length)
+    (hact : w'.active = w.active) : ActiveIn w' := by
+  intro id hid
+  rw [hlen] at hid
+  obtain ⟨h1, h2⟩ := h id hid
+  have hs := (hext.same id hid).2
+  rw [hs, hact]
+  exact ⟨h1, fun ha => h2 (hext.noRevive id hid ha)⟩
+
+theorem execute_len (w : World) (id : Nat) : (execute w id).orders.length = w.orders.length := by
+  rcases execute_orders w id with h | ⟨_, _, _, h⟩
+  · rw [h]
+  · rw [h]; exact (FrameLemmas.getD_upd_status w.orders id 0 .executed).2.2.1
+
+theorem cancel_len (w : World) (id : Nat) : (cancel w id).orders.length = w.orders.length := by
+  rcases cancel_orders w id with h | ⟨_, _, _, h⟩
+  · rw [h]
+  · rw [h]; exact (FrameLemmas.getD_upd_status w.orders id 0 .canceled).2.2.1
+
+theorem activeIn_execute (w : World) (id : Nat) (h : ActiveIn w) : ActiveIn (execute w id) :=
+  activeIn_of_ext w _ h (FrameLemmas.execute_ext w id) (execute_len w id) (execute_active w id)
+
+theorem activeIn_cancel (w : World) (id : Nat) (h : ActiveIn w) : ActiveIn (cancel w id) :=
+  activeIn_of_ext w _ h (FrameLemmas.cancel_ext w id) (cancel_len w id) (cancel_active w id)
+
+/-- the registry clean-up drops only orders that are not active -/
+theorem activeIn_updateActive (w : World) (sym : Nat) (h : ActiveIn w) : ActiveIn (updateActive w sym) := by
+  intro id hid
+  have hid' : id < w.orders.length := hid
+  obtain ⟨h1, h2⟩ := h id hid'
+  have hl : (updateActive w sym).active.length = w.active.length := by
+    unfold updateActive; exact C03.upd_len _ _ _
+  refine ⟨by rw [hl]; exact h1, ?_⟩
+  intro ha
+  have ha' : (w.orders.getD id default).status = .active := ha
+  have hin := h2 ha'
+  show id ∈ getD (updateActive w sym).active (w.orders.getD id default).sym
+  by_cases hs : sym = (w.orders.getD id default).sym
+  · subst hs
+    have hreg := (active_registry w _ h1 id).mpr ⟨hin, w.orders.getD id default, by
+      rw [List.getD_eq_getElem?_getD, List.getElem?_eq_getElem hid']; rfl, ha'⟩
+    exact hreg
+  · unfold updateActive
+    rw [C03.getD_upd_other _ _ _ _ hs]; exact hin
+
+theorem submit_new_order {w w' : World} {sym : Nat} {side : Side} {type : OrderType} {q p : Rat} {ro : Bool}
+    (h : submit w sym side type q p ro = .ok w') :
+    (w'.orders.getD w.orders.length default).sym = sym ∧ (w'.orders.getD w.orders.length default).status = .active := by
+  unfold submit at h
+  dsimp only at h
+  repeat' (split at h)
+  all_goals (cases h)
+  all_goals (first | (simp; done) | (split <;> simp; done) | (split <;> (try split) <;> (try split) <;> simp; done))
+
+/-- a successful submission for a symbol that has a registry keeps the invariant: the new order is registered -/
+theorem activeIn_submit {w w' : World} {sym : Nat} {side : Side} {type : OrderType} {q p : Rat} {ro : Bool}
+    (h : ActiveIn w) (hs : sym < w.active.length) (hok : submit w sym side type q p ro = .ok w') : ActiveIn w' := by
+  obtain ⟨htake, hlen, hact⟩ := FrameLemmas.submit_ok_fields hok
+  obtain ⟨hnsym, hnst⟩ := submit_new_order hok
+  have hal : w'.active.length = w.active.length := by rw [hact]; exact C03.upd_len _ _ _
+  intro id hid
+  rw [hlen] at hid
+  by_cases hold : id < w.orders.length
+  · have hsame : w'.orders.getD id default = w.orders.getD id default := by
+      rw [List.getD_eq_getElem?_getD, List.getD_eq_getElem?_getD, ← htake, List.getElem?_take, if_pos hold]
+    obtain ⟨h1, h2⟩ := h id hold
+    rw [hsame, hal]
+    refine ⟨h1, fun ha => ?_⟩
+    have hin := h2 ha
+    rw [hact]
+    by_cases hss : sym = (w.orders.getD id default).sym
+    · rw [← hss, C03.getD_upd_same _ _ _ hs]
+      rw [← hss] at hin
+      exact List.mem_append_left _ hin
+    · rw [C03.getD_upd_other _ _ _ _ hss]; exact hin
+  · have hid' : id = w.orders.length := by omega
+    subst hid'
+    rw [hnsym, hal]
+    refine ⟨hs, fun _ => ?_⟩
+    rw [hact, C03.getD_upd_same _ _ _ hs]
+    exact List.mem_append_right _ (List.mem_singleton.mpr rfl)
+
+/-- a rejected submission changes neither orders nor registries -/
+theorem activeIn_submit_rejected {w w' : World} {k : Err} {sym : Nat} {side : Side} {type : OrderType} {q p : Rat} {ro : Bool}
+    (h : ActiveIn w) (herr : submit w sym side type q p ro = .error (k, w')) : ActiveIn w' := by
+  obtain ⟨ho, ha⟩ := FrameLemmas.submit_err_fields herr
+  intro id hid
+  rw [ho] at hid ⊢
+  rw [ha]
+  exact h id hid
+
+/-- the account operations of a session -/
+inductive AOp where
+  | submit (sym : Nat) (side : Side) (type : OrderType) (q p : Rat) (ro : Bool)
+  | execute (id : Nat)
+  | cancel (id : Nat)
+  | cleanUp (sym : Nat)
+
+def applyOp (w : World) : AOp → World
+  | .submit sym side type q p ro =>
+    if sym < w.active.length then
+      (match Acc.submit w sym side type q p ro with | .ok w' => w' | .error (_, w') => w')
+    else w
+  | .execute id => Acc.execute w id
+  | .cancel id => Acc.cancel w id
+  | .cleanUp sym => updateActive w sym
+
+theorem activeIn_applyOp (w : World) (op : AOp) (h : ActiveIn w) : ActiveIn (applyOp w op) := by
+  cases op with
+  | submit sym side type q p ro =>
+    simp only [applyOp]
+    by_cases hs : sym < w.active.length
+    · rw [if_pos hs]
+      cases hsub : Acc.submit w sym side type q p ro with
+      | ok w' => exact activeIn_submit h hs hsub
+      | error kw => obtain ⟨k, w'⟩ := kw; exact activeIn_submit_rejected h hsub
+    · rw [if_neg hs]; exact h
+  | execute id => exact activeIn_execute w id h
+  | cancel id => exact activeIn_cancel w id h
+  | cleanUp sym => exact activeIn_updateActive w sym h
+
+/-- EVERY HISTORY: after any sequence of submissions (accepted or rejected), executions, cancellations (of any ids,
+    known, unknown or already final) and registry clean-ups, every active order is listed in its symbol's registry -/
+theorem activeIn_history (kind : Kind) (b f l : Rat) (n : Nat) (ops : List AOp) :
+    ActiveIn (ops.foldl applyOp (init kind b f l n)) := by
+  suffices ∀ w, ActiveIn w → ActiveIn (ops.foldl applyOp w) from this _ (activeIn_init kind b f l n)
+  induction ops with
+  | nil => intro w h; exact h
+  | cons op ops ih => intro w h; exact ih _ (activeIn_applyOp w op h)
+
+/-- non-vacuity: two symbols; submit on both, execute one, clean up — the other is still listed -/
+def demoHistory : World := List.foldl applyOp (init .futures 1000 0 1 2)
+  [AOp.submit 0 .buy .limit 1 10 false, .submit 1 .sell .limit 1 12 false, .execute 0, .cleanUp 0, .cleanUp 1]
+example : decide (demoHistory.active = [[], [1]] ∧ demoHistory.orders.map (·.status) = [.executed, .active]) = true := by
+  decide +kernel
+
 /-- what `EExt` says about one order, in the vocabulary of the property -/
 theorem lifecycle_of_ext {e e' : Engine M} (h : EExt e e') (id : Nat) (hid : id < e.w.orders.length) :
     Step (orderOf e id).status (orderOf e' id).status ∧
